@@ -124,7 +124,7 @@ std::string random_go(const Board& b, int& depth_limit, std::vector<orc::Move>& 
     depth_limit = 0;
     sm.clear();
     stop_ms = -1;
-    switch (RNG->below(9))
+    switch (RNG->below(10))
     {
     case 0:
     case 1: depth_limit = 1 + RNG->below(maxdepth); return "go depth " + std::to_string(depth_limit);
@@ -167,6 +167,17 @@ std::string random_go(const Board& b, int& depth_limit, std::vector<orc::Move>& 
         stop_ms = int(RNG->below(60));
         depth_limit = 30;
         return "go depth 30";
+    case 8:
+    {
+        // a depth limit together with a clock or movetime (all limits must hold together)
+        depth_limit = 1 + RNG->below(maxdepth);
+        std::string s = "go depth " + std::to_string(depth_limit);
+        if (RNG->below(2))
+            s += " wtime " + std::to_string(RNG->below(2) ? 30000 : 600) + " btime " + std::to_string(RNG->below(2) ? 30000 : 600) + (RNG->below(2) ? " winc 1000 binc 1000" : "");
+        else
+            s += " movetime " + std::to_string(RNG->below(2) ? 20000 : 40);
+        return s;
+    }
     default: depth_limit = 1 + RNG->below(maxdepth); return "go depth " + std::to_string(depth_limit) + " nodes 200000";
     }
 }
@@ -232,6 +243,16 @@ Session make(const std::string& kind, long idx)
         for (const orc::Move& m : all) sm += " " + m.uci();
         s.go(sm, -1, b, 1, all);
         s.go(idx % 2 ? "go depth 2" : "go movetime 30", -1, b, idx % 2 ? 2 : 0);
+        // deep enough that late moves (64th and beyond) of wide nodes are searched with reductions
+        static const char* WIDE[] = {"1q1q1rk1/q4ppp/2n5/8/3N4/2B5/Q4PPP/1Q1QR1K1 w - - 0 1", "3q1rk1/1q3ppp/q7/8/3Q4/Q7/1Q3PPP/3Q1RK1 w - - 0 1",
+                                     "1q1q1rk1/q4ppp/2n5/8/3N4/2B5/Q4PPP/1Q1QR1K1 w - - 3 20", "3q1rk1/1q3ppp/q7/8/3Q4/Q7/1Q3PPP/3Q1RK1 w - - 5 30"};
+        Board wb = Board::fen(WIDE[idx % 4]);
+        if (wb.retro_legal() && wb.legal().size() >= 64)
+        {
+            s.send("position fen " + wb.fen());
+            int d = 4 + int(idx % 2);
+            s.go("go depth " + std::to_string(d) + " nodes 400000", -1, wb, d);
+        }
     }
     else if (kind == "multigame")
     {
